@@ -73,7 +73,7 @@ type v34Exchange struct {
 	ReqBody              int64 // bytes the body reader produces
 	ReqDeclared          int64 // Request.ContentLength
 	ReqChunkMax          int
-	ReqChunkFixed        int // > 0: every Read returns exactly this many bytes (the last one the rest)
+	ReqChunkFixed        int  // > 0: every Read returns exactly this many bytes (the last one the rest)
 	ReqEOFWithData       bool // last chunk is returned together with io.EOF
 	ReqEOFDelayMs        int  // the body reader pauses that long (virtual) before it reports its end
 	ReqStartDelayMs      int  // the client waits that long (virtual) before it starts the round trip
@@ -560,7 +560,7 @@ type v34Run struct {
 	c          *verifrt.Case
 	srv        []*v34SrvObs
 	cli        []*v34CliObs
-	hwg        sync.WaitGroup
+	hwg        verifrt.WG
 	srvDone    []chan struct{} // closed when the handler of exchange i returns (made inside the bubble)
 	vmu        sync.Mutex
 	nviol      int
@@ -1304,7 +1304,7 @@ func (run *v34Run) execute(t *testing.T) *v34RunStats {
 		return st
 	}
 
-	var wg sync.WaitGroup
+	var wg verifrt.WG
 	var pending atomic.Int64
 	for _, ex := range cfg.Ex {
 		wg.Add(1)
